@@ -21,6 +21,14 @@ GUARD = "compiler::clvm::NewStyleIntConversion"
 GUARD_NEW = GUARD + "::new"
 GUARD_FAMILY = (GUARD + "::new", GUARD + "::setting", "<%s as std::ops::Drop>::drop" % GUARD)
 
+# statics emitted by pyo3's macros (create_exception!, #[pyclass], #[pymodule]) in the extension-module configuration
+PYO3_RUNTIME_TYPES = (
+    "pyo3::sync::GILOnceCell<pyo3::Py<pyo3::types::PyType>>",
+    "pyo3::sync::GILOnceCell<std::borrow::Cow<'static, std::ffi::CStr>>",
+    "pyo3::impl_::pyclass::lazy_type_object::LazyTypeObject<",
+    "pyo3::impl_::pymodule::ModuleDef",
+)
+
 COMPILE_ENTRIES = [
     "compiler::compiler::compile_file",
     "compiler::compiler::compile_pre_forms",
@@ -102,6 +110,9 @@ def run(tier="quick", replay=None):
             if path.startswith("<%s as " % COUNTER) or path == COUNTER:
                 allowed_hits.add("counter")
                 R.ob("R05.c", key, "%s:%s" % (s["file"], s["line"]), "allowed: the fresh-name counter (who-may-touch checked by R05.d)")
+            elif ty.startswith(PYO3_RUNTIME_TYPES):
+                R.ob("R05.c", key, "%s:%s" % (s["file"], s["line"]), "allowed: pyo3-generated write-once registration object "
+                     "(Python type object / module definition / class doc cache), holds no compilation state")
             elif path.startswith(TLS + "::"):
                 allowed_hits.add("tls")
                 R.ob("R05.c", key, "%s:%s" % (s["file"], s["line"]), "allowed: the int-mode thread-local (guard typestate checked by R05.e)")
